@@ -31,17 +31,32 @@ type Task struct {
 }
 
 type Sched struct {
-	Tasks    []*Task
-	Plan     [][2]int
-	Switches []Switch
-	OnSwitch func(from, to int, site int) // runs with the clock paused
-	Foreign  bool                         // a yield arrived from a goroutine that holds no baton
-	Bias     int                          // >0: a due plan entry fires only at a yield whose site class equals Bias
-	cur      int
-	pos      int
-	base     uint64
-	done     chan struct{}
+	Tasks          []*Task
+	Plan           [][2]int
+	Switches       []Switch
+	OnSwitch       func(from, to int, site int) // runs with the clock paused
+	Foreign        bool                         // a yield arrived from a goroutine that holds no baton
+	Bias           int                          // >0: a due plan entry fires only at a yield whose site class equals Bias
+	cur            int
+	pos            int
+	base           uint64
+	done           chan struct{}
 	InCallAtSwitch int // probe: switches that landed while another task had a call in flight
+	OraclePanic    any // a panic raised while the OnSwitch oracle was reading shared state
+}
+
+func (s *Sched) onSwitch(from, to, site int) {
+	if s.OnSwitch == nil {
+		return
+	}
+	Pause()
+	defer Resume()
+	defer func() {
+		if r := recover(); r != nil && s.OraclePanic == nil {
+			s.OraclePanic = r
+		}
+	}()
+	s.OnSwitch(from, to, site)
 }
 
 var active *Sched
@@ -101,11 +116,7 @@ func (s *Sched) switchTo(next int, site int) {
 			break
 		}
 	}
-	if s.OnSwitch != nil {
-		Pause()
-		s.OnSwitch(from, next, site)
-		Resume()
-	}
+	s.onSwitch(from, next, site)
 	s.cur = next
 	SetOwner(s.Tasks[next].gid) // 0 if it has not started yet: set again when it starts
 	s.Tasks[next].resume <- struct{}{}
@@ -141,11 +152,7 @@ func (s *Sched) Run(first int) {
 				if !u.Finished {
 					from := i
 					s.Switches = append(s.Switches, Switch{Now() - s.base, -1, from, j})
-					if s.OnSwitch != nil {
-						Pause()
-						s.OnSwitch(from, j, -1)
-						Resume()
-					}
+					s.onSwitch(from, j, -1)
 					s.cur = j
 					SetOwner(u.gid)
 					u.resume <- struct{}{}
